@@ -11,8 +11,11 @@ CLAIMS = {
          NOTE + "Distributed counterparts: compared through the dense image only (no theorem yet). Block formats not claimed.",
          "Coq proof over Gallina model + model/implementation correspondence"),
  "C02": ("Coq theorems: every SpMV kernel (b=Ax, b+=Ax, b-=Ax, r=b-Ax, A^T variants) of COO/CSR/CSC equals the product with the represented operator for all "
-         "matrices/vectors; tie: extracted kernels vs C++ on random matrices in all formats (exact, integer data) + dense reference.",
-         NOTE + "Distributed products: tie + oracle; theorem composed with C03 in progress. Block formats not claimed.",
+         "matrices/vectors; distributed A x, b + A x, b - A x: each rank's rows equal the rows of the global operator gden applied to the global vector, for every list of rank "
+         "states (any process count, any contiguous partition, empty ranks) and every package accepted by the forward check of C03; distributed A^T x = global transpose product "
+         "summed over all ranks' rows for every package accepted by the reverse check, independent of the previous content of b. Tie: extracted kernels and distributed model "
+         "(assembly with duplicates, package construction, exchange) vs the library on all formats, default/explicit/empty-rank partitions, tap on/off; dense reference; stale-output sentinel.",
+         NOTE + "Block formats not claimed. The package checks are discharged for the standard constructor by C03's construction theorem and checked on dumps otherwise.",
          "Coq proof over Gallina model + model/implementation correspondence"),
  "C03": ("Coq theorems about the package model (world of per-rank send/receive lists): forward exchange is natural in the payload, so one check on the vector of "
          "global ids (run by the extracted verified checker on the package dumped from the implementation on every run) implies that every vector/block/row payload "
